@@ -413,6 +413,8 @@ class FitEngine(Engine):
             if scn["windows"]["mode"] == "scalar":
                 scn["windows"]["width"] = float(np.float32(scn["windows"]["width"]))
         if rng.random() < 0.12:
+            scn["logging"] = rng.choice(["INFO", "DEBUG"])  # the application has logging switched on
+        if rng.random() < 0.12:
             scn["interleave"] = {"frac": rng.random(), "where": rng.choice(["site", "site", "line"]),
                                  "other_seed": scn["truth"]["seed"] if rng.random() < 0.3 else rng.randrange(1 << 30)}
         return scn
